@@ -17,11 +17,12 @@ DYADIC = ["0.125", "0.25", "0.5", "0.75", "1", "1.5", "2", "3"]
 
 class Gen:
     def __init__(self, rng: random.Random, max_depth: int = 3, max_lines: int = 14,
-                 features: set[str] | None = None, malformed: bool = False):
+                 features: set[str] | None = None, malformed: bool = False, bad_conditions: bool = False):
         self.rng = rng
         self.max_depth = max_depth
         self.max_lines = max_lines
         self.malformed = malformed
+        self.bad_conditions = bad_conditions   # conditions that raise when evaluated (not in model M3)
         self.features = features or {"mark", "block", "watch", "alarm", "macro", "wait", "cmd", "thr", "base",
                                      "blank", "engine"}
         self.lines: list[str] = []
@@ -125,9 +126,11 @@ class Gen:
             self.emit(depth, f"Call macro: {r.choice(self.macros)}")
             return 1
         if k == "bad":
-            self.lines.append("    " * depth + r.choice([
-                "Frobnicate", "Mark", "Wait: banana", "Base: parsec", "Watch: T9 > 1", "Call macro: nosuch",
-                "Unknowncmd: 3", "  Mark: misindented", "Run counter: x", "Watch: T0 >", "1.5.2 Mark: z"]))
+            bad = ["Frobnicate", "Mark", "Wait: banana", "Base: parsec", "Call macro: nosuch",
+                   "Unknowncmd: 3", "  Mark: misindented", "Run counter: x", "1.5.2 Mark: z"]
+            if self.bad_conditions:
+                bad += ["Watch: T9 > 1", "Watch: T0 >"]
+            self.lines.append("    " * depth + r.choice(bad))
             return 1
         if k == "block":
             self.block_no += 1
